@@ -130,4 +130,102 @@ def run_c03(ctx):
                         "the scripted filesystem stops offering directory entries after the first one that did not fit, as real filesystems do"]
 
 
-PROPS = {"C02": run_c02, "C03": run_c03}
+def export_cases(ctx):
+    """All request classes of WireFrame.tla with the outcome the model predicts (one JSON line each)."""
+    r = C._java(["-workers", "1", "-metadir", ctx.path("tlc_cases"), "-noGenerateSpecTE", "-config", "MC_WireFrame_export.cfg", "MC_WireFrame.tla"],
+                C.SPEC, None, 600, xmx="4g", xss="512m")
+    out = ctx.path("cases.ndjson")
+    n = 0
+    with open(out, "w") as f:
+        for line in r.stdout.splitlines():
+            if line.startswith('"{'):
+                f.write(json.loads(line) + "\n")
+                n += 1
+    if n == 0:
+        C.log(r.stdout[-3000:])
+        raise C.ToolError("no request classes exported from WireFrame")
+    return out, n
+
+
+def validate(ctx, pid, trace, gen):
+    res = C.tlc_trace(ctx, "Trace_Wire", trace, timeout=3000, xmx="8g")
+    if not res["accepted"]:
+        raise C.ToolError("wire trace not consumed: %s" % res["stuck"])
+    rows = C.read_ndjson(trace)
+    txs = [r for r in rows if r.get("e") == "Tx"]
+    ctx.traces += len(txs)
+    ctx.events += len(rows)
+    ctx.states += res.get("distinct", 0)
+    ctx.transitions += res.get("distinct", 0)
+    for sig, idx, detail in viols_of(res):
+        if sig.startswith(pid + "|"):
+            tx = rows[idx - 1] if idx - 1 < len(rows) else None
+            ctx.violation(sig, {"tx_index": idx, "generator": gen, "expected_vs_got": detail}, replay_src={"tx": tx, "seed": ctx.seed, "generator": gen})
+    ndrift = res["output"].count('"DRIFT"')
+    if ndrift:
+        ctx.drift.append({"generator": gen, "transactions_disagreeing_with_WireFrame": ndrift})
+        C.log("MODEL-DRIFT %s: %d transaction(s) disagree with the outcome predicted by WireFrame.tla" % (pid, ndrift))
+    return rows, txs
+
+
+def run_harness_c01(ctx, bindir, args, gen):
+    """Run the driver; a crash of the process (signal / abort / panic outside catch_unwind) is data for C01."""
+    import subprocess
+    e = dict(os.environ, VERIF_SEED=str(ctx.seed), RUST_BACKTRACE="0")
+    r = subprocess.run([os.path.join(bindir, "wire")] + [str(a) for a in args], env=e, stdout=subprocess.PIPE, stderr=subprocess.PIPE, text=True)
+    if r.returncode != 0:
+        ctx.violation("C01|crash|%s|exit-%d" % (gen, r.returncode), {"stderr": r.stderr[-1500:], "args": [str(a) for a in args]},
+                      replay_src={"cmd": ["wire"] + [str(a) for a in args], "seed": ctx.seed})
+        return False
+    return True
+
+
+def run_c01(ctx):
+    bindir = C.build_harness(bins=["wire"])
+    abi = export_abi(ctx)
+    # design level: the transcribed decision procedure of handle_message against the A obligations
+    mc = C.tlc_mc(ctx, "WireFrame", cfg="MC_WireFrame.cfg", workers=8, timeout=900)
+    for inv in mc["violated"]:
+        ctx.violation("C01|model|" + inv, {"tlc": mc["output"][-3000:]}, replay_src={"tlc_output": mc["output"][-6000:]})
+    cases, ncls = export_cases(ctx)
+    k = 1 if ctx.quick else 8
+    nrand = 3000 if ctx.quick else 60000
+    allrows = []
+    t1 = ctx.path("cls.ndjson")
+    if run_harness_c01(ctx, bindir, [abi, t1, "classes", cases, k, 1], "class"):
+        rows, txs = validate(ctx, "C01", t1, "class")
+        allrows = rows
+        for t in txs[:1]:
+            ctx.sample({"class": t["x"]["cls"], "predicted": t["x"]["pred"], "observed": t["out"]})
+    t2 = ctx.path("rnd.ndjson")
+    if run_harness_c01(ctx, bindir, [abi, t2, "random", nrand], "random"):
+        rows, txs = validate(ctx, "C01", t2, "random")
+        for t in txs[:2]:
+            ctx.sample({"random_bytes_hex": t["x"].get("hex", "")[:160], "cap": t["x"]["cap"], "tr": t["tr"], "observed": t["out"]})
+    t3 = ctx.path("wf.ndjson")
+    if run_harness_c01(ctx, bindir, [abi, t3, 1 if ctx.quick else 20], "wf"):
+        validate(ctx, "C01", t3, "wf")
+
+    def mut(bad):
+        n = 0
+        for r in bad:
+            if r.get("e") == "Tx" and r["out"]["nmsgs"] == 1 and n < 3:
+                n += 1
+                if n == 1:
+                    r["out"]["nmsgs"] = 2
+                elif n == 2:
+                    r["reply"]["len"] += 1
+                else:
+                    r["out"]["canary_ok"] = False
+    sigs = binding_demo(ctx, allrows, mut, "C01|") if allrows else []
+    ctx.extra.update({
+        "distinct_nontrivial": ncls,
+        "rule": "every request class of WireFrame.tla (opcode/hole x bytes supplied x length-field lie x body class x reply capacity x fs result x transport; %d classes) concretised k=%d times, plus %d random/bit-flipped byte strings, plus the well-formed valuation set; distinct = classes" % (ncls, k, nrand),
+        "request_classes": ncls,
+        "binding_demo": [{"corruption": "second reply / length field off by one / canary damaged", "rejected_with": sigs}],
+    })
+    ctx.assumptions += ["memory safety is observed through canaries around every buffer, the untouched tail of the reply space and process crashes; not by a memory model",
+                        "fusedev replies are counted on an AF_UNIX SOCK_SEQPACKET pair (one message per write call)"]
+
+
+PROPS = {"C01": run_c01, "C02": run_c02, "C03": run_c03}
